@@ -128,7 +128,7 @@ def class_wp(topo, kt, w):
 
 FAMILIES = [("Vac", "R", "C"), ("Vac", "L", "C"), ("Iac", "C", "R"), ("Vacl", "L", "R"), ("Vdc", "R", "L"), ("Vach", "Z", "G"), ("Idcl", "lamp", "Y")]
 LONG_PLAIN = ["0", "1", "2", "3", "4", "5", "6", "7", "8", "9", "10"]
-LONG_ODD = ["a", "B", "9", "10", "_x", "Zz", "b2", "0x", "C", "c", "100"]
+LONG_ODD = ["a", "Ba", "9", "109", "_x", "Zz", "b2a", "0x", "C", "c", "100"]
 
 
 def family_circuit(src, ser, shu, nsec, labels, ground_idx, flip):
